@@ -42,12 +42,15 @@ pub fn c13(opts: &Opts) -> Report {
                 4 => format!("{{!{}}}", print_ops(&wf_pipeline(&mut ctx.rng, 3))),
                 _ => assemble(&[Seg::Sec(wf_pipeline(&mut ctx.rng, 4))]).0,
             };
-            let body = match ctx.rng.below(8) {
+            let body = if i % 40 == 11 {
+                // a result with a line break and a long last line (beyond any line buffer)
+                ctx.rep.bump("long_last_line"); format!("header\n{}", "b".repeat(1000 + ctx.rng.below(1500)))
+            } else if i % 40 == 31 { "x".repeat(9000) + "\nend" } else { match ctx.rng.below(8) {
                 0 => "a\r\nb\r\nc".to_string(),                 // interior CR LF must survive every input route
                 1 => ctx.rng.pick(&["-", "--", "-x", "- "]).to_string(),   // looks like an option / the stdin placeholder
                 2 => "line one\r\n\r\nline three\r".to_string(),
                 _ => gens::text(&mut ctx.rng, 5),
-            };
+            } };
             let input = if body.starts_with('-') && body.len() <= 2 && ctx.rng.chance(1, 2) { body.clone() } else { format!("{}{}", body, ws_tail(&mut ctx.rng)) };
             // every 20th configuration: the INPUT argument is exactly "-" (or "--"), template and input both given as
             // arguments, stdin a pipe with or without data: the argument is the input, verbatim
